@@ -79,11 +79,15 @@ def zVerdict (toks : List String) : String :=
     let ml ← pMeta
     expect "R"
     let res ← tok
+    -- X 1: the gate changed the command vector it was asked about (the keys it is given share the command's array)
+    let mutated ← tryCatch (do expect "X"; pBool) (fun _ => pure false)
     let model := match authorize globMatch rp auth u ml.m with
       | none => "allow"
       | some d => denyName d
     let mv := if model == res then "OK" else s!"DIFF decision model={model} impl={res}"
-    pure s!"{seq} {mv} ## acl={aclSpecVerdict rp auth u ml (res == "allow")} cls={classifyAcl auth u ml} shape={model}"
+    let av := if mutated then "rej:command-rewritten" else aclSpecVerdict rp auth u ml (res == "allow")
+    let cls := if mutated then "gate-rewrites-command-arguments" else classifyAcl auth u ml
+    pure s!"{seq} {mv} ## acl={av} cls={cls} shape={model}"
   match p.run toks with
   | .ok (s, _) => s
   | .error e => s!"? BAD {e}"
